@@ -36,7 +36,8 @@ def belongs(prop, v, run):
         if not ex.endswith("tsm"):
             return False
         # exactly-once is the sum component; the position-code-sensitive component belongs to C02's clauses
-        return (cls == "ref" and site in ("result.sum", "particles-missing")) or (cls == "calllog" and site == "P2PInner.tsm") or cls in ("writeset", "symbolic-changed")
+        # (rebuild histories: what a target holds after rebuild + execute must be preserved results + exactly one more full interaction)
+        return (cls == "ref" and site in ("result.sum", "particles-missing")) or (cls == "calllog" and site == "P2PInner.tsm") or cls in ("writeset", "symbolic-changed", "rebuild:execute-after")
     if prop == "C12":
         return cls in ("staged-vs-full", "writeset", "calllog", "symbolic-changed")
     if prop == "C13":
@@ -191,6 +192,8 @@ def handle_line(line, w, st, flavour, results, crashes):
         except Exception:
             return
         r["flavour"] = flavour
+        # where in the batch, and in which worker process, this run happened: the scenarios that process ran before it are its history
+        r["n"], r["proc_start"], r["stripe"], r["of"] = st.get("n"), w.start, w.stripe, w.of
         results.append(r)
     elif line.startswith("DONE "):
         st["seed"] = None
@@ -228,6 +231,24 @@ def run_replay(flavour, scenario, timeout=120):
     if res is None and crash is None and p.returncode not in (0, 1):
         crash = {"stage": stage, "what": "exit=%d" % p.returncode}
     return res, crash
+
+def shows_history(prop, flavour, tier, base, indices, seed, sub, want, timeout=900):
+    """Re-runs the batch indices `indices` in this order in ONE fresh process and reports whether the run (seed, sub) -- the last index --
+    shows the wanted violation.  For violations that depend on what the same process did before (state kept in static variables)."""
+    try:
+        p = subprocess.run([binary(flavour), "--prop", prop, "--tier", tier, "--base", str(base), "--indices", ",".join(str(i) for i in indices)],
+                           stdout=subprocess.PIPE, stderr=subprocess.DEVNULL, text=True, timeout=timeout)
+    except subprocess.TimeoutExpired:
+        return False, None
+    for line in p.stdout.splitlines():
+        if not line.startswith("RESULT "): continue
+        try: res = json.loads(line[7:])
+        except Exception: continue
+        if res.get("seed") == seed and res.get("sub") == sub:
+            for v in res.get("viol", []):
+                if v["cls"] == want["cls"] and v["site"] == want["site"]:
+                    return True, res
+    return False, None
 
 def emit_scenario(flavour, prop, tier, seed, sub, force=None):
     env = dict(os.environ)
@@ -451,7 +472,12 @@ def main():
         if flavour == "valgrind": build(["plain"])
         elif flavour not in flavours: build([flavour])
         want = rep.get("violation", {})
-        good, res, crash = shows(prop, flavour, rep["scenario"], want)
+        if rep.get("process_history"):
+            ph = rep["process_history"]
+            good, res = shows_history(prop, flavour, ph["tier"], ph["base"], ph["indices"], rep["seed"], rep["sub"], want)
+            crash = None
+        else:
+            good, res, crash = shows(prop, flavour, rep["scenario"], want)
         if good:
             print("reproduced: %s %s" % (want.get("cls"), want.get("site")))
             if res is not None and want.get("event_hash") and res.get("hash") != want.get("event_hash"):
@@ -518,6 +544,33 @@ def main():
         if sc is None:
             gate_failures.append("no scenario for " + k); continue
         good, res, crash = shows(prop, r["flavour"], sc, v)
+        if not good and r.get("n") is not None and r["flavour"] != "valgrind" and v["cls"] not in ("crash", "hang", "abort"):
+            # not reproducible from the scenario alone: does it need what the same worker process ran before it?
+            hist = [i for i in range(r["proc_start"], r["n"] + 1) if i % r["of"] == r["stripe"]]
+            okh, resh = (shows_history(prop, r["flavour"], tier, base, hist, r["seed"], r["sub"], v) if len(hist) > 1 else (False, None))
+            if okh:
+                okh2, resh2 = shows_history(prop, r["flavour"], tier, base, hist, r["seed"], r["sub"], v)   # twice: the history replay itself must be repeatable
+                if not okh2 or resh2.get("hash") != resh.get("hash"):
+                    gate_failures.append("violation %s (seed %s sub %s): the process-history replay is not repeatable" % (k, r["seed"], r["sub"])); continue
+                pred, last = hist[:-1], hist[-1]
+                before = len(pred)
+                if not args.no_minimise:
+                    single = None
+                    for i in reversed(pred[-24:]):
+                        if shows_history(prop, r["flavour"], tier, base, [i, last], r["seed"], r["sub"], v)[0]: single = [i]; break
+                    if single is not None: pred = single
+                    else:
+                        budget = [40]
+                        pred = ddmin_list(pred, lambda lst: shows_history(prop, r["flavour"], tier, base, lst + [last], r["seed"], r["sub"], v)[0], budget)
+                name = "%s-%s-%s.json" % (prop, r["seed"], hashlib.sha1(k.encode()).hexdigest()[:8])
+                path = os.path.join(REPLAYS, name)
+                viol = dict(v); viol["key"] = k; viol["event_hash"] = resh.get("hash"); viol["occurrences_in_batch"] = cnt
+                viol["detail"] = v.get("detail", "") + " [only after %d earlier scenario(s) in the same process: state kept between scenarios]" % len(pred)
+                with open(path, "w") as f:
+                    json.dump({"format": 1, "property": prop, "seed": r["seed"], "sub": r["sub"], "flavour": r["flavour"], "violation": viol, "scenario": sc,
+                               "process_history": {"tier": tier, "base": base, "indices": pred + [last], "from_predecessors": before, "to_predecessors": len(pred)}}, f, indent=1)
+                violation_lines.append((k, path, viol))
+                continue
         if not good:
             gate_failures.append("violation %s (seed %s sub %s) did not reproduce in a fresh process" % (k, r["seed"], r["sub"])); continue
         if r["flavour"] != "valgrind" and res is not None and r.get("hash") and res.get("hash") != r.get("hash"):
